@@ -6,6 +6,7 @@ import gens
 FAMILIES = ['mixture']
 BRIDGES = ['br_mk_comp_', 'br_to_molar_', 'br_to_weight_']
 PROPS_V = 'Props/C15.v'
+EXTRA_TARGETS = ['Model/NumCheck.vo']
 BUDGET = {'quick': 1500, 'thorough': 40000}
 ORACLE_RULE = ('random fractions in [0,1] (70% interior, 20% within 1e-12..1e-3 of an end, 10% exactly an end) x built-in '
                'and synthetic molar masses (ratio up to 1e3); a case is non-trivial when the two molar masses differ')
@@ -70,6 +71,14 @@ def oracle(rng, tier):
             ok, detail = False, 'raised %s: %s' % (type(e).__name__, e)
         yield {'kind': 'builtin' if m.name in gens.BUILTIN_MIXTURES else 'synthetic', 'case': case, 'ok': ok,
                'detail': detail, 'nontrivial': nontriv}
+
+
+def correspondence(tier, seed):
+    import corr_numeric
+    budget = {'convert': 60}
+    if tier == 'thorough':
+        budget = {k: v * 12 for k, v in budget.items()}
+    return corr_numeric.run(seed, budget, nmax=30 if tier == 'quick' else 200, tag='C15')
 
 
 def replay(rep):
